@@ -8,7 +8,7 @@ checks="${*:-$id}"
 WT=/tmp/seed-$id-$n; S=$WT/_seed; OUT=/verif/seeded/$id-$n
 cd "$WT" || exit 2
 log=$S/confirm.log; : > "$log"
-git checkout -q -- . ; git apply --check "$S/patch.diff" || { echo "patch does not apply to clean tree"; exit 2; }
+git checkout -q -- . ; git checkout -q --detach "$(git -C /repo rev-parse HEAD)"; git apply --check "$S/patch.diff" || { echo "patch does not apply to clean tree"; exit 2; }
 echo "== demo WITHOUT patch" | tee -a "$log"
 (cd "$S/demo" && CARGO_TARGET_DIR=$WT/target bash -c "$demo") >>"$log" 2>&1; without=$?
 git apply "$S/patch.diff"
